@@ -2,7 +2,10 @@
 
 use std::borrow::Cow;
 
+#[cfg(not(fastrace_verif))]
 use fastant::Instant;
+#[cfg(fastrace_verif)]
+use crate::verif::clock::Instant;
 
 use crate::collector::SpanId;
 use crate::util::Properties;
